@@ -1098,6 +1098,8 @@ class Unit:
         self.lost_closures = {}   # fn -> closure selectors that matched nothing
         self.bare_closures = {}   # fn -> closures left without a contract (non-trivial bodies)
         self.bare_loops = {}      # fn -> number of loops without a template invariant
+        self.lost_required = {}   # fn -> required before/after anchors that found no statement
+        self.lost_optional = {}   # fn -> optional before?/after? anchors that found no statement (their hints are missing)
         self.item_text = {}       # `kw Name` -> normalised text of every type definition the unit extracts
         self.strlit_patterns = {} # fn -> number of string-literal patterns (`"lit" =>`, `"lit" |`) in its text
         self.lost_ghost = {}   # fn -> ghost variables whose bookkeeping was attached to an optional anchor that is gone
@@ -1611,9 +1613,14 @@ class Unit:
                 # the guarded statement is gone: the function's ensures still stand; obligations that speak about ghost
                 # variables maintained here cannot be decided any more (never an alarm)
                 self.lost_ghost.setdefault(qual, set()).update(_ghost_names(lines))
+                self.lost_optional.setdefault(qual, []).append("before? %d %s" % (k, tok))
                 continue
             if k < 1 or k > len(occ):
-                raise Undecided("lost anchor: occurrence %d of `%s` in %s (%d found)" % (k, tok, qual, len(occ)))
+                # a REQUIRED anchor is gone: its lines cannot be attached.  The rest of the function (and of the unit) is still
+                # verified; this function can no longer come out as proved, and a failure in it is pending (a replay decides)
+                self.lost_required.setdefault(qual, []).append("before %d %s" % (k, tok))
+                self.lost_ghost.setdefault(qual, set()).update(_ghost_names(lines))
+                continue
             x = occ[k - 1]
             i = sgb[x]
             prev = toks[sgb[x - 1]].text if x > 0 else "{"
@@ -1706,9 +1713,12 @@ class Unit:
             occ = [x for x in range(len(sgb)) if _seq_at(toks, sgb, x, words)]
             if optional and (k < 1 or k > len(occ)):
                 self.lost_ghost.setdefault(qual, set()).update(_ghost_names(lines))
+                self.lost_optional.setdefault(qual, []).append("after? %d %s" % (k, tok))
                 continue
             if k < 1 or k > len(occ):
-                raise Undecided("lost anchor: occurrence %d of `%s` in %s (%d found)" % (k, tok, qual, len(occ)))
+                self.lost_required.setdefault(qual, []).append("after %d %s" % (k, tok))
+                self.lost_ghost.setdefault(qual, set()).update(_ghost_names(lines))
+                continue
             x = occ[k - 1]
             depth = 0
             e = None
